@@ -20,7 +20,7 @@ from ..oracle import c13_disl as OD
 from .. import monitor, cover
 
 RULE = ('configurations are enumerated round-robin over 8 unit-cell settings (fcc/bcc conventional with centred and '
-        'primitive setting, 1-atom primitive cells, hcp with 3- and 4-index input) x 6 m/n axis assignments x 4 line '
+        'primitive setting, two-type B2, 1-atom primitive cells, hcp with 3- and 4-index input) x 6 m/n axis assignments x 4 line '
         'characters (edge, mixed index<=2, screw, mixed high-index) and, by co-prime strides of the case index, slip '
         'system, line, sign of the line, boundary shape/width mode, shift mode (index/explicit/scaled, at construction or '
         'at the call), centre mode, size mode (list, default, minimum lengths, tuple) ; lattice constants, elastic '
@@ -145,22 +145,36 @@ class Monitors:
         rv = np.array(d.rcell.box.vects)
         info['rv'] = rv
         Lr = np.abs(rv).max()
-        rec.close(1e-7 * Lr, rv, exp_rv, 'rotated cell vectors = transform . (uvws . ucell vectors)', 'rcell:vects:' + cls,
-                  uvws=uv3, m=info['mstr'], n=info['nstr'])
-        rec.check(np.linalg.norm(np.cross(OC.unit(rv[line]), xi)) < 1e-8, 'the periodic cell vector is parallel to the line direction m x n of the elastic solution',
-                  'rcell:line-parallel-xi:' + cls, vect=rv[line], xi=xi, uvws=uv3)
-        rec.check(abs(rv[motion] @ n) < 1e-8 * Lr and abs(rv[line] @ n) < 1e-8 * Lr, 'line and in-plane cell vectors are perpendicular to n', 'rcell:inplane-perp-n:' + cls)
         r = OC.same_crystal(d.rcell.atoms.pos, d.rcell.atoms.atype, T, np.zeros(3), info['vects'], info['rel'], info['atype'], TOLREL)
         nexp = OC.expected_natoms(rv, info['vects'], len(info['rel']))
-        ok = r.frac_on_site == 1.0 and r.equal_mult and r.distinct and abs(nexp - d.rcell.natoms) < 1e-6
-        rec.check(ok, 'rcell is the ucell crystal rotated by transform (every atom on a lattice site of its type, sites equally often, none twice, count = volume ratio)',
-                  'rcell:crystal:' + cls, on_site=r.frac_on_site, mult=r.mult, distinct=r.distinct, natoms=d.rcell.natoms, expected=nexp,
-                  m=info['mstr'], n=info['nstr'], uvws=uv3)
+        inside, _ = OC.inside_cell(d.rcell.atoms.pos, rv, d.rcell.box.origin)
+        ok_v = rv.shape == exp_rv.shape and np.abs(rv - exp_rv).max() <= 1e-7 * Lr
+        ok_l = np.linalg.norm(np.cross(OC.unit(rv[line]), xi)) < 1e-8
+        ok_p = abs(rv[motion] @ n) < 1e-8 * Lr and abs(rv[line] @ n) < 1e-8 * Lr
+        ok_c = r.frac_on_site == 1.0 and r.distinct and inside and abs(nexp - d.rcell.natoms) < 1e-6
+        det = dict(uvws=uv3, m=info['mstr'], n=info['nstr'], vects=rv, expected_vects=exp_rv, on_site=r.frac_on_site, natoms=d.rcell.natoms,
+                   expected_natoms=nexp, vects_ok=ok_v, line_parallel_xi=ok_l, inplane_perp_n=ok_p, crystal_ok=ok_c)
+        if cls == 'standard':
+            rec.check(ok_v, 'rotated cell vectors = transform . (uvws . ucell vectors)', 'rcell:vects', **det)
+            rec.check(ok_l, 'the periodic cell vector is parallel to the line direction m x n of the elastic solution', 'rcell:line-parallel-xi', **det)
+            rec.check(ok_p, 'line and in-plane cell vectors are perpendicular to n', 'rcell:inplane-perp-n', **det)
+            rec.check(ok_c, 'rcell is the ucell crystal rotated by transform (every atom on a lattice site of its type, none twice, inside the cell, count = volume ratio)',
+                      'rcell:crystal', **det)
+        else:
+            # one mechanism, one key: the rotated cell is not the transform-rotated crystal in the requested axes
+            rec.check(ok_v and ok_l and ok_p and ok_c,
+                      'rcell is the ucell crystal rotated by transform: cell vectors = transform . (uvws . ucell vectors), line vector parallel to m x n, in-plane vectors perpendicular to n, atoms on the rotated lattice sites',
+                      'orientation:' + cls, **det)
+        info['W'] = abs(rv[cut] @ n)
+        d._vf = info
+        rec.count('monitor_ok:init')
+        if 'oblique' in cls:
+            rec.count('skipped:oblique-class:shift-clauses')
+            return
         # shifts: slip plane halfway between atomic planes
         W = abs(rv[cut] @ n)
         ncoord = d.rcell.atoms.pos @ n
         planes = plane_gaps(ncoord, W)
-        info['W'] = W
         shifts = np.asarray(d.shifts, float)
         okpar = np.abs(shifts - np.outer(shifts @ n, n)).max() < 1e-9 * Lr
         rec.check(okpar, 'offered shifts are along the slip-plane normal', 'shifts:along-n')
@@ -180,8 +194,7 @@ class Monitors:
         else:
             req = shifts[a['shiftindex'] if a['shiftindex'] is not None else 0]
         rec.close(1e-12 * (1 + Lr), d.shift, req, 'the shift selected at construction is the requested one', 'init:shift-selection')
-        d._vf = info
-        rec.count('monitor_ok:init')
+        rec.count('monitor_ok:init-shifts')
 
     # ------------------------------------------------- common to generators
     def pre_gen(self, real, args, kwargs):
@@ -242,9 +255,9 @@ class Monitors:
         ok = r.frac_on_site == 1.0 and r.distinct and inside
         nexp = OC.expected_natoms(expv, info['vects'], len(info['rel']))
         if full:
-            ok = ok and r.equal_mult and abs(nexp - len(base_pos)) < 1e-6
+            ok = ok and abs(nexp - len(base_pos)) < 1e-6
         rec.check(ok, 'reference system is the perfect crystal rotated by transform and shifted by the requested shift',
-                  f'{kind}:base-crystal:{cls}', on_site=r.frac_on_site, mult=r.mult, distinct=r.distinct, inside=inside,
+                  f'{kind}:base-crystal' if cls == 'standard' else 'orientation:' + cls, on_site=r.frac_on_site, mult=r.mult, distinct=r.distinct, inside=inside,
                   natoms=len(base_pos), expected=nexp, shift=req, m=info['mstr'], n=info['nstr'])
         return nexp
 
@@ -253,7 +266,10 @@ class Monitors:
         info = getattr(d, '_vf', None)
         msg = str(exc)
         out = dict(ok=False, exc=exc)
-        if isinstance(a.get('sizemults'), tuple) and isinstance(exc, TypeError) and 'Invalid sizemults' not in msg:
+        if info is not None and 'oblique' in info['cls'] and not isinstance(a.get('sizemults'), tuple):
+            rec.refusal(f'{kind}:oblique-class:{type(exc).__name__}')
+            out['why'] = 'oblique-class'
+        elif isinstance(a.get('sizemults'), tuple) and isinstance(exc, TypeError) and 'Invalid sizemults' not in msg:
             rec.fail('size multipliers given as a tuple (the documented type) are accepted', f'{kind}:sizemults-tuple:TypeError', exception=exc)
             out['why'] = 'tuple'
         elif isinstance(exc, ValueError) and 'slip plane' in msg and info is not None and req is not None:
@@ -265,9 +281,6 @@ class Monitors:
             else:
                 rec.fail('refusal "atoms on slip plane" only when atoms are on the plane', kind + ':refusal-unjustified:slip-plane', exception=exc)
             out['why'] = 'onplane'
-        elif isinstance(exc, ValueError) and ('not an integer' in msg or 'mismatch' in msg) and info is not None and 'oblique' in info['cls']:
-            rec.refusal(kind + ':oblique-class:' + ('non-integer' if 'integer' in msg else 'mismatch'))
-            out['why'] = 'oblique'
         elif isinstance(exc, ValueError) and 'not an integer' in msg:
             rec.fail('refusal "non-integer deletion count" only when N|b.m|/(2 L_m) is not integral', kind + ':refusal-unjustified:non-integer', exception=exc)
             out['why'] = 'nonint'
@@ -293,6 +306,10 @@ class Monitors:
         if exc is not None:
             self.last = self.classify_exception(d, a, exc, 'monopole')
             rec.count('monitor_ok:monopole-exc')
+            return
+        if 'oblique' in info['cls']:
+            rec.count('skipped:oblique-class:monopole-clauses')
+            self.last = dict(ok=False, why='oblique-class')
             return
         req, how, center, bw, mults = self.requested(d, a, old)
         base, disl = d.base_system, d.disl_system
@@ -380,6 +397,10 @@ class Monitors:
             self.last = self.classify_exception(d, a, exc, 'array', req)
             rec.count('monitor_ok:array-exc')
             return
+        if 'oblique' in info['cls']:
+            rec.count('skipped:oblique-class:array-clauses')
+            self.last = dict(ok=False, why='oblique-class')
+            return
         req, how, center, bw, mults = self.requested(d, a, old)
         base, disl = d.base_system, d.disl_system
         if a['return_base_system']:
@@ -403,7 +424,7 @@ class Monitors:
         rec.count('array:removed-atoms', removed)
         rec.count('array:with-edge-component', int(expdel > 0.5))
         rec.check(abs(expdel - round(expdel)) < 1e-6 and removed == int(round(expdel)), 'removed atoms = N |b.m| / (2 L_m), an integer',
-                  'array:deleted-count:' + ('standard' if cls == 'standard' else cls), removed=removed, expected=expdel, N=N0)
+                  'array:deleted-count', removed=removed, expected=expdel, N=N0)
         rec.check(base.natoms == disl.natoms, 'reference system trimmed to the remaining atoms', 'array:base-trimmed', base=base.natoms, disl=disl.natoms)
         if base.natoms != disl.natoms:
             return
@@ -413,12 +434,19 @@ class Monitors:
         pbc = [bool(x) for x in disl.pbc]
         rec.check(pbc == [i != cut for i in range(3)], 'non-periodic across the slip-plane normal only', 'array:pbc', pbc=pbc, cut=cut)
         rec.close(1e-9 * L, disl.box.vects[line], base.box.vects[line], 'the line cell vector is that of the reference system', 'array:line-vector')
-        rec.close(1e-9 * L, disl.box.vects[motion], OD.array_motion_vector(vm, b, m), 'the in-plane cell vector shrinks by half a Burgers vector', 'array:motion-vector')
+        screw = abs(b @ m) < 1e-7 * bn
+        gotvm = np.array(disl.box.vects[motion])
+        if screw:
+            # no edge component: the cell volume does not change and either sign of b/2 closes the lattice
+            okvm = min(np.abs(gotvm - (vm - b / 2)).max(), np.abs(gotvm - (vm + b / 2)).max()) < 1e-9 * L
+            rec.check(okvm, 'pure screw: the in-plane cell vector changes by half a Burgers vector (either sign)', 'array:motion-vector:screw', got=gotvm, vm=vm, b=b)
+        else:
+            rec.close(1e-9 * L, gotvm, OD.array_motion_vector(vm, b, m), 'the in-plane cell vector shrinks by half a Burgers vector', 'array:motion-vector')
         # overlaps
         dpos = np.array(disl.atoms.pos)
         pairs = OD.close_pairs(dpos, disl.box.vects, [line, motion], 0.5 * info['r0'])
         cross = [p for p in pairs if p[3]]
-        rec.check(not cross, 'no two atoms closer than r0/2 across the two in-plane periodic directions', 'array:overlap:across-boundary', pairs=cross[:3], r0=info['r0'])
+        rec.check(not cross, 'no two atoms closer than r0/2 across the two in-plane periodic directions', 'array:overlap:across-boundary:' + ('screw' if screw else 'edge-component'), pairs=cross[:3], r0=info['r0'])
         rec.check(not [p for p in pairs if not p[3]], 'no two atoms closer than r0/2 inside the cell', 'array:overlap:inside', pairs=pairs[:3], r0=info['r0'])
         # types and boundary
         nat = int(np.max(info['atype']))
@@ -486,28 +514,46 @@ def check_disregistry(rec, am, d, last):
     except Exception as e:
         rec.fail('disregistry of a generated configuration can be evaluated', f'disregistry:{kind}:exception', exception=e)
         return
-    y = np.array(base.atoms.pos) @ n - center @ n
-    h = y[y > 0].min() - y[y < 0].max()
+    bp = np.array(base.atoms.pos)
+    y = bp @ n - center @ n
+    ya, yb = y[y > 0].min(), y[y < 0].max()
+    h = ya - yb
+    xa = np.unique(np.round(bp[np.abs(y - ya) < 1e-6] @ m, 6))
+    xb = np.unique(np.round(bp[np.abs(y - yb) < 1e-6] @ m, 6))
+    rec.count('disregistry:evaluated')
+    if len(xa) < 4 or len(xb) < 4:
+        rec.count('disregistry:exempt-too-few-columns')
+        return
+    # largest distance over which the observer has to interpolate or hold a value constant
+    dx = max(np.diff(xa).max(), np.diff(xb).max(), abs(xa[0] - xb[0]), abs(xa[-1] - xb[-1]))
     cx = center @ m
     Wm, Wp = cx - coord[0], coord[-1] - cx
     acc = dr[0] - dr[-1]
-    rec.count('disregistry:evaluated')
-    if Wm < 4 * h or Wp < 4 * h:
+    lvec = np.array(disl.box.vects[info['line']])
+
+    def reduced(r):
+        # displacements between periodic systems are defined modulo the periodic line vector only
+        k = np.round(r @ lvec / (lvec @ lvec))
+        if k != 0:
+            rec.count('disregistry:reduced-modulo-line-vector')
+        return r - k * lvec
+    if min(Wm, Wp) < 4 * max(h, dx):
         rec.count('disregistry:exempt-narrow')
         return
+    rec.count('disregistry:judged')
     if kind == 'array' and last['linear']:
         exp = b * (coord[-1] - coord[0]) / last['Lm']
-        step = np.diff(coord).max()
-        rec.close(2.0 * step / last['Lm'] * bn + 1e-9, acc, exp, 'uniform field: disregistry accumulates to b (x_end - x_start) / L_m', 'disregistry:array-linear',
-                  h=h, L=last['Lm'])
+        rec.close(2.0 * dx / last['Lm'] * bn + 1e-9, reduced(acc - exp), np.zeros(3), 'uniform field: disregistry accumulates to b (x_end - x_start) / L_m (modulo the line vector)',
+                  'disregistry:array-linear', got=acc, expected=exp, h=h, L=last['Lm'], dx=dx)
         return
-    bound = 4.0 * (OD.tail(h, Wm) + OD.tail(h, Wp)) * bn
+    # tails of the elastic field beyond the sampled width + the field's variation (|du/dx| <= 4 |b| / (2 pi W)) over dx
+    bound = 4.0 * (OD.tail(h, Wm) + OD.tail(h, Wp)) * bn + 4.0 * bn * dx / (2 * np.pi) * (1 / Wm + 1 / Wp)
     if kind == 'array':
-        bound += 2.0 * np.diff(coord).max() / last['Lm'] * bn
-    err = np.linalg.norm(acc - b)
-    rec.count('disregistry:tail-bound-used-percent', int(100 * err / bound))
+        bound += 2.0 * dx / last['Lm'] * bn
+    err = np.linalg.norm(reduced(acc - b))
+    rec.count('disregistry:bound-used-percent-sum', int(100 * err / bound))
     rec.check(err <= bound, 'disregistry accumulates to one Burgers vector across the slip plane (within the analytic tail bound)',
-              f'disregistry:{kind}', got=acc, b=b, err=err, bound=bound, h=h, Wm=Wm, Wp=Wp)
+              f'disregistry:{kind}', got=acc, b=b, err=err, bound=bound, h=h, Wm=Wm, Wp=Wp, dx=dx)
 
 
 # --------------------------------------------------------------------------- #
@@ -599,6 +645,12 @@ def center_request(d, rng, mode, mults, shift):
     hg = half_gap(d, shift)
     c = (rng.uniform(-1, 1) * g['Lm'] * mults[info['motion']] / 6.0 * info['m'] + rng.uniform(-0.5, 0.5) * hg * info['n']
          + rng.uniform(-1, 1) * g['Lline'] * info['xi'])
+    if mode == 'nextgap':
+        # slip plane through the middle of the NEXT gap between atomic planes (the core sits one plane higher)
+        pl = plane_gaps(d.rcell.atoms.pos @ info['n'] + shift @ info['n'], info['W'])
+        upper = pl[1] if len(pl) > 1 else pl[0] + info['W']
+        c = c - (c @ info['n']) * info['n'] + 0.5 * (pl[0] + upper) * info['n']
+        return dict(center=c)
     if mode == 'cart':
         return dict(center=c)
     return dict(center=np.linalg.solve(info['rv'].T, c), centerscale=True)
@@ -636,7 +688,7 @@ def boundary_request(d, rng, mode, mults, cell):
 
 BOUNDARY_MODES = ['none', ('cylinder', False), ('box', False), ('cylinder', True), ('box', True), ('cylinder', False)]
 SHIFT_MODES = ['default', 'init-index', 'call-index', 'call-explicit', 'call-scaled', 'init-explicit']
-CENTER_MODES = ['none', 'cart', 'scaled']
+CENTER_MODES = ['none', 'cart', 'scaled', 'nextgap']
 SIZE_MODES = ['list', 'default', 'min', 'list+min', 'list', 'tuple', 'list', 'list']
 
 
@@ -685,7 +737,7 @@ def run(ctx):
         struct, mn, character, cell, sc, Cd, t = case_inputs(i, rng)
         bmode = BOUNDARY_MODES[(i + i // 8 + i // 48) % 6]
         smode = SHIFT_MODES[(i + i // 6 + t) % 6]
-        cmode = CENTER_MODES[(i // 4 + i // 48 + t) % 3]
+        cmode = CENTER_MODES[(i // 4 + i // 48 + t) % 4]
         zmode = SIZE_MODES[(i + i // 8 + i // 64 + t) % 8]
         k = int(rng.integers(0, 6))
         sig = ('monopole', struct, sc['system'], character, ''.join(mn), str(bmode), smode, cmode, zmode)
@@ -722,8 +774,8 @@ def run(ctx):
             for j in range(3):
                 if j != info['line'] and (zmode == 'min' or rng.random() < 0.6):
                     kw[names[j]] = float(rng.uniform(1.0, 1.6) * lens[j] * mults[j]) if zmode == 'list+min' else float(rng.uniform(14, 40))
-            if zmode == 'min':
-                mults = None
+        if zmode in ('min', 'default'):
+            mults = None
         eff = mults if mults is not None else [2 if j != info['line'] else 1 for j in range(3)]
         for j, nm in enumerate(('amin', 'bmin', 'cmin')):
             if nm in kw:
@@ -735,6 +787,8 @@ def run(ctx):
         if not slip_plane_clear(d, shift, ckw):
             ckw = {}
             rec.count('generator:centre-dropped')
+        elif cmode == 'nextgap':
+            rec.count('generator:centre-in-next-gap')
         kw.update(ckw)
         kw.update(boundary_request(d, rng, bmode, eff, cell))
         kw['return_base_system'] = bool(i % 2)
@@ -908,7 +962,7 @@ def run(ctx):
     rec.floor('monitor_ok:init', 100)
     rec.floor('monitor_ok:monopole', 80)
     rec.floor('monitor_ok:array', 60)
-    rec.floor('disregistry:evaluated', 100)
+    rec.floor('disregistry:judged', 100)
     rec.floor('array:with-edge-component', 30)
     rec.floor('array:removed-atoms', 200)
     rec.floor('array:rows:interior', 1000)
@@ -923,3 +977,4 @@ def run(ctx):
     rec.floor('sequence:explicit-index0-after-other-shift', 8)
     rec.floor('monopole:wrapped-along-line', 1)
     rec.floor('class:standard', 100)
+    rec.floor('generator:centre-in-next-gap', 10)
